@@ -3,43 +3,116 @@
 From G05 Require Import Routing Spec Check.
 
 (* ------------------------------------------------------------------ precedence *)
+Fixpoint list_str_eqb (x y : list str) : bool :=
+  match x, y with
+  | [], [] => true
+  | a :: x', c :: y' => str_eqb a c && list_str_eqb x' y'
+  | _, _ => false
+  end.
+Lemma list_str_eqb_eq x y : list_str_eqb x y = true -> x = y.
+Proof.
+  revert y; induction x as [|a x IH]; intros [|c y] H; try discriminate; [reflexivity|].
+  cbn in H. apply andb_true_iff in H as [H1 H2]. apply str_eqb_eq in H1. rewrite (IH y H2), H1. reflexivity.
+Qed.
+
+(* The arms of configureProxy's selection switch may stand in any order when at most one kind of upstream is
+   configured (the CLI cannot configure more: newHTTPProxy rejects static upstream + PAC, and has no flag for
+   UpstreamProxyFunc); with several kinds configured the source order func > upstream > pac is what counts. *)
+Definition select_canonical : bool :=
+  list_str_eqb select_order [b "func"; b "upstream"; b "pac"; b "default"].
+Definition select_arms_present : bool :=
+  mem (b "func") select_order && mem (b "upstream") select_order && mem (b "pac") select_order.
+Definition at_most_one_upstream (cfg : config) : Prop :=
+  match c_upfunc cfg, c_upstream cfg, c_pac cfg with
+  | Some _, None, None | None, Some _, None | None, None, Some _ | None, None, None => True
+  | _, _, _ => False
+  end.
+Definition sel_ok (cfg : config) : Prop := select_canonical = true \/ at_most_one_upstream cfg.
+
+Lemma arm_fn_unfold cfg tag :
+  arm_fn cfg tag =
+  if str_eqb tag (b "func") then c_upfunc cfg
+  else if str_eqb tag (b "upstream") then
+    match c_upstream cfg with Some u => Some (fun _ : target => PUrl (fst u) (snd u)) | None => None end
+  else if str_eqb tag (b "pac") then
+    match c_pac cfg with Some f => Some (fun t => pac_proxy (f t)) | None => None end
+  else None.
+Proof. reflexivity. Qed.
+
+Lemma select_none cfg order :
+  c_upfunc cfg = None -> c_upstream cfg = None -> c_pac cfg = None -> select_base cfg order = None.
+Proof.
+  intros Hf Hu Hp. induction order as [|tag r IH]; [reflexivity|]. cbn [select_base].
+  rewrite arm_fn_unfold, Hf, Hu, Hp.
+  destruct (str_eqb tag (b "func")), (str_eqb tag (b "upstream")), (str_eqb tag (b "pac")); exact IH.
+Qed.
+
+Lemma mem_cons k a r : mem k (a :: r) = str_eqb k a || mem k r.
+Proof. reflexivity. Qed.
+
+Lemma select_only cfg order tag0 f :
+  (forall tag, str_eqb tag tag0 = false -> arm_fn cfg tag = None) -> arm_fn cfg tag0 = Some f ->
+  mem tag0 order = true -> select_base cfg order = Some f.
+Proof.
+  intros Hother Hthis. induction order as [|tag r IH]; intros Hm; [discriminate|].
+  cbn [select_base]. rewrite mem_cons in Hm. destruct (str_eqb tag tag0) eqn:E.
+  - apply str_eqb_eq in E. subst tag. rewrite Hthis. reflexivity.
+  - rewrite (Hother tag E). apply IH. rewrite str_eqb_sym, E in Hm. exact Hm.
+Qed.
+
 Section Precedence.
-  Hypothesis Hsel : select_order = [b "func"; b "upstream"; b "pac"; b "default"].
+  Hypothesis Hpresent : select_arms_present = true.
   Hypothesis Hwr : wrappers = [b "direct-domains"; b "direct-localhost"].
   Hypothesis Hlh : localhost_direct_const = b "direct".
-  Hypothesis Hdd : direct_domains_maps_idna = true.
+  Hypothesis Hdd : direct_domains_maps_idna = true /\ direct_domains_strips_dot = true.
 
-  Lemma select_base_spec cfg : select_base cfg select_order = spec_base cfg.
+  Lemma select_base_spec cfg : sel_ok cfg -> select_base cfg select_order = spec_base cfg.
   Proof.
-    rewrite Hsel. unfold spec_base. cbn [select_base].
-    change (arm_fn cfg (b "func")) with (c_upfunc cfg).
-    destruct (c_upfunc cfg); [reflexivity|].
-    change (arm_fn cfg (b "upstream")) with
-      (match c_upstream cfg with Some u => Some (fun _ : target => PUrl (fst u) (snd u)) | None => None end).
-    destruct (c_upstream cfg); [reflexivity|].
-    change (arm_fn cfg (b "pac")) with
-      (match c_pac cfg with Some f => Some (fun t => pac_proxy (f t)) | None => None end).
-    destruct (c_pac cfg); reflexivity.
+    intros [Hc|Hone].
+    - apply list_str_eqb_eq in Hc. rewrite Hc. unfold spec_base. cbn [select_base].
+      change (arm_fn cfg (b "func")) with (c_upfunc cfg).
+      destruct (c_upfunc cfg); [reflexivity|].
+      change (arm_fn cfg (b "upstream")) with
+        (match c_upstream cfg with Some u => Some (fun _ : target => PUrl (fst u) (snd u)) | None => None end).
+      destruct (c_upstream cfg); [reflexivity|].
+      change (arm_fn cfg (b "pac")) with
+        (match c_pac cfg with Some f => Some (fun t => pac_proxy (f t)) | None => None end).
+      destruct (c_pac cfg); reflexivity.
+    - unfold select_arms_present in Hpresent. apply andb_true_iff in Hpresent as [Hfu Hp].
+      apply andb_true_iff in Hfu as [Hf Hu].
+      unfold at_most_one_upstream in Hone. unfold spec_base.
+      destruct (c_upfunc cfg) as [f|] eqn:Ef; destruct (c_upstream cfg) as [u|] eqn:Eu;
+        destruct (c_pac cfg) as [p|] eqn:Ep; try contradiction.
+      + apply (select_only cfg select_order (b "func")); [| rewrite arm_fn_unfold, Ef; reflexivity | exact Hf].
+        intros tag E. rewrite arm_fn_unfold, E, Eu, Ep.
+        destruct (str_eqb tag (b "upstream")), (str_eqb tag (b "pac")); reflexivity.
+      + apply (select_only cfg select_order (b "upstream")); [| rewrite arm_fn_unfold, Eu; reflexivity | exact Hu].
+        intros tag E. rewrite arm_fn_unfold, E, Ef, Ep.
+        destruct (str_eqb tag (b "func")), (str_eqb tag (b "pac")); reflexivity.
+      + apply (select_only cfg select_order (b "pac")); [| rewrite arm_fn_unfold, Ep; reflexivity | exact Hp].
+        intros tag E. rewrite arm_fn_unfold, E, Ef, Eu.
+        destruct (str_eqb tag (b "func")), (str_eqb tag (b "upstream")); reflexivity.
+      + apply select_none; assumption.
   Qed.
 
-  Lemma proxy_for_is_spec cfg t : proxy_for cfg t = spec_proxy cfg t.
+  Lemma proxy_for_is_spec cfg t : sel_ok cfg -> proxy_for cfg t = spec_proxy cfg t.
   Proof.
-    unfold proxy_for, proxy_func, spec_proxy. rewrite select_base_spec, Hwr.
+    intros Hsel. unfold proxy_for, proxy_func, spec_proxy. rewrite (select_base_spec cfg Hsel), Hwr.
     cbn [fold_left].
     change (apply_wrapper cfg ?f (b "direct-domains")) with
       (match c_direct cfg with
-       | Some m => wrap_direct (fun h => m h || (direct_domains_maps_idna && m (c_idna cfg h))) f
+       | Some m => wrap_direct (fun h => existsb m (direct_forms cfg h)) f
        | None => f end).
-    rewrite Hdd.
     set (f1 := match c_direct cfg with
-               | Some m => wrap_direct (fun h => m h || (true && m (c_idna cfg h))) (spec_base cfg)
+               | Some m => wrap_direct (fun h => existsb m (direct_forms cfg h)) (spec_base cfg)
                | None => spec_base cfg end).
     change (apply_wrapper cfg f1 (b "direct-localhost")) with
       (if str_eqb (c_lh_mode cfg) localhost_direct_const then wrap_direct (c_is_localhost cfg) f1 else f1).
-    rewrite Hlh. subst f1. unfold direct_domain, localhost_direct.
+    rewrite Hlh. subst f1. unfold direct_domain, localhost_direct, direct_forms.
+    destruct Hdd as [-> ->]. cbn [app].
     destruct (spec_base cfg) as [f|]; destruct (c_direct cfg) as [m|];
       destruct (str_eqb (c_lh_mode cfg) (b "direct")); cbn [wrap_direct andb]; try reflexivity;
-      try (destruct (m (hostname t) || m (c_idna cfg (hostname t))));
+      try (destruct (existsb m _));
       try (destruct (c_is_localhost cfg (hostname t))); reflexivity.
   Qed.
 End Precedence.
